@@ -199,6 +199,10 @@ def undo_redo_oracle(e, out, before, after, before_schema):
       kind = 'undo-does-not-restore:error-cell-decoded'
     elif kind == 'undo-does-not-restore' and only_trigger_cells_of_readded_rows(e, out, before, u):
       kind = 'undo-does-not-restore:trigger-rerun-on-readded-row'
+    elif kind == 'undo-does-not-restore' and stale_summary(before) and only_summary_tables_differ(before, u):
+      # the document was inconsistent BEFORE the bundle (ReplaceTableData does not maintain summary tables); the bundle's
+      # recalculation drops the stale summary rows and its undo does not bring them back
+      kind = 'undo-does-not-restore:' + STALE
     elif kind == 'undo-does-not-restore' and only_formula_cells_differ(e, before, u):
       # schema, row ids and every data cell are restored; only recomputed (formula) cells differ
       kind = 'undo-does-not-restore:formula-cells-only'
@@ -324,9 +328,57 @@ def only_trigger_cells_of_readded_rows(e, out, a, b):
   return n > 0
 
 
-def classify_history_failure(tb):
+STALE = 'stale-summary-after-ReplaceTableData'
+
+
+def _summary_sources(snap):
+  """{summary table id: source table id} from the metadata of a snapshot."""
+  mt = snap.get('_grist_Tables')
+  if not mt:
+    return {}
+  ids, tid, src = mt['ids'], mt['cols'].get('tableId', []), mt['cols'].get('summarySourceTable', [])
+  by_ref = dict(zip(ids, tid))
+  return {t: by_ref.get(s) for t, s in zip(tid, src) if s}
+
+
+def stale_summary(snap):
+  """A summary row whose `group` names a record that its source table does not have: the state docactions.ReplaceTableData
+  leaves behind (it loads the new rows without maintaining the summary tables of the table)."""
+  for st, src in _summary_sources(snap).items():
+    if st not in snap or src not in snap or 'group' not in snap[st]['cols']:
+      continue
+    have = set(snap[src]['ids'])
+    for g in snap[st]['cols']['group']:
+      if isinstance(g, list) and g[:1] == ['L'] and any(r not in have for r in g[1:]):
+        return True
+  return False
+
+
+def only_summary_tables_differ(a, b):
+  sums = set(_summary_sources(a)) | set(_summary_sources(b))
+  diff = [t for t in set(a) | set(b) if G.canon(a.get(t)) != G.canon(b.get(t))]
+  return bool(diff) and all(t in sums for t in diff)
+
+
+def history_goes_stale(history):
+  """Replays the history: True if a bundle containing ReplaceTableData leaves a stale summary row (see stale_summary)."""
+  e, _ = G.new_doc()
+  for b in history:
+    try:
+      G.apply(e, copy.deepcopy(b))
+    except Exception:
+      G.clean(e)
+      continue
+    if any(a and a[0] == 'ReplaceTableData' for a in b) and stale_summary(G.snapshot(e)):
+      return True
+  return False
+
+
+def classify_history_failure(tb, history=None):
   if "KeyError: '#lookup#" in tb and 'in RenameTable' in tb:
     return 'history-undo-raises:rename-table-lookup-column'
+  if history is not None and 'for non-existent record' in tb and history_goes_stale(history):
+    return 'history-undo-raises:' + STALE
   return 'history-undo-raises'
 
 
@@ -351,7 +403,7 @@ def whole_history_undo(history):
       G.apply(e, [['ApplyUndoActions', u]])
     except Exception:
       tb = traceback.format_exc()
-      return '%s: undoing bundle %d of %d (in reverse) raises: %s' % (classify_history_failure(tb), len(undos) - i,
+      return '%s: undoing bundle %d of %d (in reverse) raises: %s' % (classify_history_failure(tb, history), len(undos) - i,
                                                                      len(undos), tb[-300:])
   end = G.snapshot(e)
   if G.canon(end) != G.canon(start):
@@ -1156,7 +1208,7 @@ def _traced_run(ctx, n_hist, nb):
           G.apply(e, [['ApplyUndoActions', u]])
         except Exception:
           ok = False
-          issues.append({'prop': 'C01', 'kind': classify_history_failure(traceback.format_exc()),
+          issues.append({'prop': 'C01', 'kind': classify_history_failure(traceback.format_exc(), history),
                          'what': traceback.format_exc()[-300:],
                          'replay': {'history': copy.deepcopy(history), 'whole_history': True}})
           break
